@@ -1820,7 +1820,7 @@ def gen_ml_metas(ctx):
             for (m, n) in [(3, 2), (3, 3), (4, 3)]:
                 k += 1
                 c = dict(m=m, n=n, ke=ke, kx="scalar", pe="cov", px="cov", model=form, geom=geom, mean="vec")
-                for attempt in range(300):
+                for attempt in range(4000):
                     meta = instantiate(rng, c, op="ml")
                     if curvature_ok(meta, m, n, "ML"):
                         break
@@ -1835,7 +1835,7 @@ def gen_ml_metas(ctx):
                 for (m, n) in [(4, 3), (5, 2), (6, 3)]:
                     k += 1
                     c = dict(m=m, n=n, ke=ke, kx="scalar", pe=pe, px="cov", model=forms[k % 4], geom="default", mean="vec")
-                    for attempt in range(300):
+                    for attempt in range(4000):
                         meta = instantiate(rng, c, op="ml")
                         if curvature_ok(meta, m, n, "ML"):
                             break
@@ -1951,8 +1951,8 @@ def gen_cascade_metas(ctx):
                     meta = {"op": "cascade", "prior": prior, "lik": lik, "linear": linear, "model_grad": mg, "m": m, "n": n,
                             "max_dim_inv": md, "dimcls": dimcls, "A": gen_A(rng, m, n), "b": [dy(rng) for _ in range(m)]}
                     if prior == "RegularizedGMRF" and lik == "Gaussian":
-                        meta["subclass"] = rng.random() < 0.5
-                    if lik == "Gaussian" and rng.random() < 0.3:
+                        meta["subclass"] = (len(out) % 2 == 0)
+                    if lik == "Gaussian" and len(out) % 3 == 0:          # (by position, not by the seed: the cells are fixed)
                         meta["experimental"] = True
                     out.append(meta)
     for prior in ["Gaussian", "GMRF", "LMRF"]:
@@ -2012,8 +2012,8 @@ def gen_opt_metas(ctx):
                         meta = instantiate(rng, c, op="opt")
                         if curvature_ok(meta, m, n, which):
                             break
-                    meta.update(which=which, force=force, m=m, n=n, x0=[dy(rng, -2, 2) for _ in range(n)] if rng.random() < 0.5 else None,
-                                x0_style=rng.choice(["ndarray", "list", "cuqiarray"]))
+                    meta.update(which=which, force=force, m=m, n=n, x0=[dy(rng, -2, 2) for _ in range(n)] if len(out) % 2 == 0 else None,
+                                x0_style=["ndarray", "list", "cuqiarray"][len(out) % 3])
                     out.append(meta)
     return out
 
@@ -2025,9 +2025,9 @@ def gen_opt_struct_metas(ctx):
     for ke, kx in [("block", "block"), ("permblock", "matrix"), ("matrix", "arrow"), ("arrow", "permblock")]:
         for pe, px in [("cov", "cov"), ("prec", "sqrtcov"), ("sqrtcov", "prec")]:
             for mds in (None, 1):
-                m, n = rng.choice([(4, 4), (5, 4), (4, 5)])
+                m, n = [(4, 4), (5, 4)][len(out) % 2]
                 c = dict(m=m, n=n, ke=ke, kx=kx, pe=pe, px=px, model="general", geom="default", mean="vec")
-                for attempt in range(300):
+                for attempt in range(4000):
                     meta = instantiate(rng, c, op="opt")
                     if curvature_ok(meta, m, n, "MAP"):
                         break
